@@ -21,4 +21,8 @@ package builtins
 
 //@ func execute
 //@ ensures [C13,exec-one-argument] len(command) != 1 ==> result1 != nil
-//@ ensures [C13,exec-is-trimmed-stdout] result1 == nil ==> result0 == builtinOut(execute, command)
+//@ modifies execRes
+//@ at return Run#0: ghost execRes = result
+//@ ensures [C13,exec-ran-the-argument] result1 == nil ==> execRes.Cmd == command[0]
+//@ ensures [C13,exec-succeeded] result1 == nil ==> execRes.Status == 0
+//@ ensures [C13,exec-is-trimmed-stdout] result1 == nil ==> result0 == trimSpace(execRes.Stdout)
